@@ -2,6 +2,7 @@ use crate::engine::Ctx;
 
 pub mod c01;
 pub mod c02;
+pub mod c02_inject;
 pub mod c02_takeover;
 pub mod c03;
 pub mod c04;
